@@ -1,3 +1,4 @@
+-- NOTE (round 7): the exact ratio (3k-1)/(4k-2) is proved for EVERY k in PrtpyProofs/MaxMin5.lean (`MaxMin5.greedy_maxmin`); what this file calls open is closed there.
 /-
   PrtpyProofs.LPT43 — Graham's 1969 bound for LPT (`greedy`):
 
